@@ -97,7 +97,14 @@ def epoch_traces(ctx, replay, prop):
                 scs.append(p["scenario"])
         groups = [[s] for s in scs[:12]]
     else:
-        groups = chunk(scenarios(ctx.seed, ctx.tier), 1200 if ctx.tier == "quick" else 2500)
+        scs = scenarios(ctx.seed, ctx.tier)
+        if prop == "C03":
+            # "for all start genomes": a modular start genome (two modules: control nodes and control genes hold node ids and
+            # innovation numbers of their own, above those of the plain nodes and genes) - numbers issued later must exceed these too
+            scs = scs + [{"seed": ctx.seed * 100000 + 9000 + k, "popsize": [8, 14][k % 2], "executor": ["seq", "par"][k % 2], "start": "modular",
+                          "fitness": [6, 2][k % 2], "epochs": 6, "preset": [0, 5][k % 2],
+                          "override": {"addnode": 0.4, "addlink": 0.4}} for k in range(2 if ctx.tier == "quick" else 6)]
+        groups = chunk(scs, 1200 if ctx.tier == "quick" else 2500)
     if not groups:
         return {}
     ctx.vh_binary(pkg="vh_genome")
